@@ -146,6 +146,7 @@ theorem reads_varBounds (m : Model) (hlen : m.vb.length = h'.nv) :
   intro f rest r hr
   have hb := readBnd_vars cd (h' := h') m.vb 0 rest
   rw [hlen] at hb
+  refine ⟨f + 1, by simp [wVarBounds], ?_⟩
   simp [wVarBounds, readSegs, hb, hr]
 
 theorem reads_conBounds (m : Model) (nb : Bool) (hh : m.hdr = h) (hlen : m.cb.length = h.nac) (hok : cbOk h.nv m.cb = true) :
